@@ -277,6 +277,17 @@ def check(ctx):
     fwd = any(eqv(r.value, "MethodOperator(op, frame, other, *args, **kwargs)") for r in returns(opf))
     ok = pa is not None and pm is not None and fwd and pa[:3] == ["frame", "other", "op"] and pm[:3] == ["name", "left", "right"] and pa[3:] == pm[3:]
     ctx.ob("ARGPOS.align-forward", opf, f"MethodOperatorAlign{pa} -> MethodOperator(op, frame, other, *rest): rest {pa[3:] if pa else None} == {pm[3:] if pm else None}", ok, "" if ok else "the trailing operands reach MethodOperator in a different order: fill_value lands in `level` (pandas ignores level on a flat index) and is lost for operands that need alignment")
+    # ---------------- AsType: a filter passes below the cast only if its predicate does not read what the cast changes
+    asu = ex36.func("AsType._simplify_up")
+    fb = [n for n in ast.walk(asu) if isinstance(n, ast.If) and "isinstance(parent, Filter)" in unparse(n.test)]
+    ok = len(fb) == 1 and "self._filter_passthrough_available(parent, dependents)" in unparse(fb[0].test) and "not self._predicate_reads_cast_columns(parent.predicate)" in unparse(fb[0].test) and isinstance(fb[0].test, ast.BoolOp) and isinstance(fb[0].test.op, ast.And)
+    ctx.ob("DOM.astype.filter-guard", asu, "AsType pushes a Filter down only when the predicate does not read a (value-changing) cast column", ok, "" if ok else "x = df.astype({'a': 'int64'}); x[x.a > 1] evaluates the predicate on the un-cast data: rows are kept that pandas drops")
+    nar = [n for n in ast.walk(asu) if isinstance(n, ast.DictComp) and "dtypes.items()" in unparse(n)]
+    ok = len(nar) == 1 and nar[0].generators[0].ifs and all(isinstance(t.comparators[0], ast.Name) for t in nar[0].generators[0].ifs if isinstance(t, ast.Compare)) and bool(find("M_w = _convert_to_list(columns)", asu))
+    if ok:
+        w = unparse(find("M_w = _convert_to_list(columns)", asu)[0][1]["M_w"])
+        ok = all(unparse(t.comparators[0]) == w for t in nar[0].generators[0].ifs if isinstance(t, ast.Compare))
+    ctx.ob("TAB.astype.projection-membership", asu, "the dtype dict is narrowed with `key in <list of projected columns>`", ok, "" if ok else "with a single projected column `key in columns` is a substring test: 'a' in 'ab' keeps the wrong key and Series.astype raises")
 
 
 VARIANTS = [
